@@ -1,6 +1,9 @@
 import TpmProofs.ShapeMsg
 import TpmProofs.Props.C14E
 import TpmProofs.MsgPump
+import TpmProofs.Props.C04
+import TpmProofs.Props.C16
+import TpmProofs.Props.C02S
 /-!
 # C14: every event stream the decoder produces — in either mode, on every input — is shaped, so the printers cannot fail on it
 -/
@@ -83,5 +86,78 @@ theorem c14_decoder_total (abort : Bool) (top : Top) (htop : ∀ t, top = .ty t 
     ∃ rows, prettyRows tableEnv (streamOf abort (marshalRun abort Generated.msgTables top x)) = .ok rows :=
   c14_total_b tableEnv _ (decoder_shaped tableEnv abort Generated.msgTables c14_shape_tables.1 top
     (fun t ht => List.all_eq_true.mp c14_shape_tables.2 t (htop t ht)) x)
+
+/-! ### the hex column is the input -/
+
+/-- a field event's class is a primitive type of the table and the event carries that type's name and width (either mode) -/
+def ClassOk (m : MEvent) : Prop :=
+  ∃ p, C04.tablePrim m.vclass = some p ∧ m.ty = .named p.name false ∧ m.width = p.size
+
+theorem class_link (abort : Bool) : PrimLink abort C04.knownPrim ClassOk := fun p hp σ x _ =>
+  ⟨p, by simpa [C04.knownPrim] using hp, rfl, rfl⟩
+
+/-- every field event a consumer sees, in either mode and for every input, is of a table class with that class's width -/
+theorem decoder_classes (abort : Bool) (top : Top) (htop : ∀ t, top = .ty t → t ∈ Generated.allTypes) (x : List Byte) :
+    ∀ m, .marshal m ∈ streamOf abort (marshalRun abort Generated.msgTables top x) → m.val.isSome = true → ClassOk m := by
+  obtain ⟨new, ho, hgd⟩ := runWalker_gd abort (class_link abort) Generated.msgTables C04.c04_tables.1 top
+    (fun t ht => List.all_eq_true.mp C04.c04_tables.2 t (htop t ht)) x
+  simp only [initSt, List.nil_append] at ho
+  obtain ⟨suffix, hsplit⟩ := run_evs_prefix abort Generated.msgTables top x
+  rw [ho] at hsplit
+  intro m hm hv
+  unfold streamOf at hm
+  rcases List.mem_append.mp hm with hm | hm
+  · exact (hgd.1 m (by rw [← hsplit]; exact List.mem_append_left _ hm)).2 hv
+  · exfalso
+    split at hm
+    · cases hm
+    · split at hm <;> simp at hm
+
+/-- for such events the printers' own re-encoding (`to_bytes` with its delegation to the looked-up class) is the declared-width
+encoding of the value: the bytes `Binary.unmarshal` and C02/C13 speak about -/
+theorem streamBytes_eq (evs : List Event) (h : ∀ m, .marshal m ∈ evs → m.val.isSome = true → ClassOk m) :
+    streamBytes tableEnv evs = evsBytes evs := by
+  induction evs with
+  | nil => rfl
+  | cons e rest ih =>
+    have ih' := ih (fun m hm => h m (List.mem_cons_of_mem _ hm))
+    simp only [streamBytes, evsBytes, List.flatMap_cons] at ih' ⊢
+    rw [ih']
+    congr 1
+    cases e with
+    | warning w => rfl
+    | marshal m =>
+      simp only [evBytesE, Event.bytes, MEvent.bytes, eventBytes]
+      cases hv : m.val with
+      | none => rfl
+      | some y =>
+        obtain ⟨p, hp, _, hw⟩ := h m (List.mem_cons_self ..) (by rw [hv]; rfl)
+        have hp' : tableEnv.prim m.vclass = some p := hp
+        simp only [hp', hw]
+        have hmem : p ∈ Generated.allPrims := List.mem_of_find?_eq_some hp
+        exact C16.c16_toBytes_declared p y (List.all_eq_true.mp C16.c16_owners_tables p hmem)
+
+/-- **C14, hex column** for the decoder's streams: in either mode and for every input, the pretty printer returns rows whose
+hex column, concatenated, is exactly the declared-width encoding of the fields shown -/
+theorem c14_decoder_hex (abort : Bool) (top : Top) (htop : ∀ t, top = .ty t → t ∈ Generated.allTypes) (x : List Byte) :
+    ∃ rows, prettyRows tableEnv (streamOf abort (marshalRun abort Generated.msgTables top x)) = .ok rows ∧
+      rowsHex rows = evsBytes (streamOf abort (marshalRun abort Generated.msgTables top x)) := by
+  obtain ⟨rows, hr⟩ := c14_decoder_total abort top htop x
+  exact ⟨rows, hr, by rw [c14_hex_top _ _ _ hr, streamBytes_eq _ (decoder_classes abort top htop x)]⟩
+
+/-- … which is the whole input whenever strict decoding accepts it (structures, commands, responses: `done`; streams: `silent`) -/
+theorem c14_accepted_hex_is_input (top : Top) (htop : ∀ t, top = .ty t → t ∈ Generated.allTypes) (x : List Byte)
+    (hacc : (∃ v, (marshalRun true Generated.msgTables top x).outcome = .done v) ∨
+      (top = .stream ∧ (marshalRun true Generated.msgTables top x).outcome = .silent)) :
+    ∃ rows, prettyRows tableEnv (streamOf true (marshalRun true Generated.msgTables top x)) = .ok rows ∧ rowsHex rows = x := by
+  obtain ⟨rows, hr, hx⟩ := c14_decoder_hex true top htop x
+  refine ⟨rows, hr, ?_⟩
+  rw [hx]
+  have hs : streamOf true (marshalRun true Generated.msgTables top x) = (marshalRun true Generated.msgTables top x).evs := by
+    simp [streamOf, Run.evs]
+  rw [hs]
+  rcases hacc with ⟨v, hd⟩ | ⟨rfl, hsil⟩
+  · exact C02.c02_strict _ top x v hd
+  · exact C02.c02_stream _ x hsil
 
 end C14
